@@ -645,4 +645,18 @@ theorem applyDelta_enc (base : Bytes) (instrs : List Instr) (hwf : ∀ i ∈ ins
     rw [← List.append_assoc, ← List.length_append, List.drop_left]
   rw [hd, apply_enc base instrs hwf]
 
+theorem applyDeltaThin_enc (base : Bytes) (instrs : List Instr) (hwf : ∀ i ∈ instrs, i.Wf base)
+    (hb : base.length < u64) (ht : (sem base instrs).length < u64) :
+    applyDeltaThin base (encDelta base instrs) = .ok (sem base instrs) := by
+  unfold applyDeltaThin encDelta
+  rw [decodeHeaderSize_enc base.length hb]
+  simp only
+  rw [List.drop_left, decodeHeaderSize_enc _ ht]
+  simp only
+  rw [if_neg (by omega), List.take_length]
+  have hd : List.drop ((encSize 10 base.length).length + (encSize 10 (sem base instrs).length).length)
+      (encSize 10 base.length ++ (encSize 10 (sem base instrs).length ++ encInstrs instrs)) = encInstrs instrs := by
+    rw [← List.append_assoc, ← List.length_append, List.drop_left]
+  rw [hd, apply_enc base instrs hwf]
+
 end GixModel.C07
